@@ -24,7 +24,7 @@ VARIABLE cfg
 KeV   == 100000
 EMass == 51099906
 
-Wins == {"none", "valid", "inverted"}
+Wins == {"none", "valid", "inverted", "beyond"}   \* beyond: min < max but the whole window lies above the available energy
 
 WindowModes == {4, 5, 6, 8, 10, 13, 14, 15, 16, 19}
 GaModes     == {21, 22, 23, 24}
@@ -72,6 +72,8 @@ FourBetaGroundOnly(l, m) == m = 20 => l = 0          \* named deviation
 \* the plumbing layer of BxDecay0 (genbbsub, initialisation call)
 PlumbingAccept(i, l, m) == Known(i) /\ LevelOK(i, l) /\ RefAccept(i, l, m) /\ FourBetaGroundOnly(l, m)
 
+\* a window is admissible on a window-capable mode when min < max and it overlaps the spectrum (0, e0): a window entirely
+\* above the available energy selects nothing - an accepted request must yield events inside its window (C03)
 WindowOK(m, w) == w = "none" \/ (w = "valid" /\ m \in WindowModes)
 
 GaAccept(i, l, m, w) ==
